@@ -164,3 +164,53 @@ func Harness_C17_q_unmarshal_arbitrary() {
 	verif.Assert(!p2, "nopanic-unmarshal-arbitrary-inline")
 	verif.Reach("end")
 }
+
+type ssBig struct {
+	Blob []byte `tlv8:"1"`
+	N    uint8  `tlv8:"2"`
+}
+
+type ssBigList struct {
+	Head uint8   `tlv8:"1"`
+	L    []ssBig `tlv8:"14"`
+}
+
+// Tagged-list elements whose encoding is longer than 255 bytes are themselves fragmented:
+// the wire equals the reference encoding and the elements come back.
+func Harness_C17_q_large_list_elements() {
+	v := ssBigList{Head: verif.U8("head")}
+	nl := 1 + verif.Choice("list-len", 2)
+	lens := []int{10, 254, 300}
+	for i := 0; i < nl; i++ {
+		id := string(rune('0' + i))
+		v.L = append(v.L, ssBig{Blob: verif.Bytes("blob"+id, lens[verif.Choice("bloblen"+id, len(lens))]), N: verif.U8("n" + id)})
+	}
+	enc, err := Marshal(v)
+	verif.Assert(err == nil, "marshal-ok")
+	ref := kkRef(1, []byte{v.Head})
+	for i, e := range v.L {
+		if i > 0 {
+			ref = append(ref, 0, 0)
+		}
+		payload := append(kkRef(1, e.Blob), kkRef(2, []byte{e.N})...)
+		ref = append(ref, kkRef(14, payload)...)
+	}
+	wireOK := verif.Eq(enc, ref)
+	verif.Assert(wireOK, "large-elements-equal-reference-encoding")
+	if !wireOK {
+		return // decoding a mis-framed wire adds nothing and is expensive
+	}
+	var back ssBigList
+	p := verif.Panics(func() { err = Unmarshal(enc, &back) })
+	verif.Assert(!p && err == nil, "unmarshal-ok")
+	if p || err != nil {
+		return
+	}
+	verif.Assert(back.Head == v.Head && len(back.L) == len(v.L), "large-elements-roundtrip-shape")
+	if len(back.L) == len(v.L) {
+		for i := range v.L {
+			verif.Assert(verif.Eq(back.L[i].Blob, v.L[i].Blob) && back.L[i].N == v.L[i].N, "large-elements-roundtrip")
+		}
+	}
+	verif.Reach("end")
+}
